@@ -25,6 +25,19 @@ def is_unqualified_table_expression(expression: exp.Expression) -> tuple[bool, b
         exp.Expression: The transformed expression.
     """
 
+    if isinstance(expression, exp.Show):
+        # the name after IN is the scope of the SHOW, not a table: SHOW .. IN SCHEMA db1.s1 and SHOW .. IN DATABASE db1
+        # need no current database, and SHOW without a scope lists the account when there is none
+        scope_kind = expression.args.get("scope_kind")
+        scope = expression.find(exp.Table)
+        if scope_kind == "DATABASE":
+            return not scope, False
+        if scope_kind == "SCHEMA":
+            return not (scope and scope.args.get("db")), not scope
+        if scope_kind in ("TABLE", "VIEW") and scope:
+            return not scope.args.get("catalog"), not scope.args.get("db")
+        return False, False
+
     # names introduced by WITH are not tables, so they don't need a database or schema
     cte_names = {cte.alias for cte in expression.find_all(exp.CTE)}
     node = next((t for t in expression.find_all(exp.Table) if t.db or t.name not in cte_names), None)
